@@ -86,6 +86,16 @@ Theorem C01_resave_identical : forall O, fops_ok O -> forall d d' : dataset O, w
 Proof. intros O OK d d' W. exact (resave_identical O OK tables_ok_now d W d'). Qed.
 Print Assumptions C01_resave_identical.
 
+(* --- 5. nested rigs: a rig member is kept iff it is a sensor or the id of any rig of the file - whatever the
+       order in which the rigs were inserted (parent first is what a top-down construction writes) *)
+Theorem C01_nested_rigs_any_order : forall O, fops_ok O -> forall sids (rows : table O),
+  table_wf O fk_rigs rows = true ->
+  (forall r, In r rows -> ~ In (key1 O r) sids /\
+                          (In (dev_of O fk_rigs r) sids \/ In (dev_of O fk_rigs r) (map (key1 O) rows))) ->
+  read_rigs O sids (save_table O fk_rigs rows) = Ok (canon_table O fk_rigs rows, map (key1 O) rows).
+Proof. intros O OK. exact (read_rigs_save O OK tables_ok_now). Qed.
+Print Assumptions C01_nested_rigs_any_order.
+
 (* --- non-vacuity: the contracts are satisfiable ([toy]) and a dataset with all 18 parts is well formed *)
 Definition S (s : string) : cell toy := CStr (t_of s).
 Definition Fz (z : Z) : cell toy := @CFlt toy z.
@@ -98,7 +108,8 @@ Definition ex_tabs (f : tfile) : option (table toy) :=
                       [S "lid"; S ""; S "lidar"]; [S "wf"; S ""; S "wifi"]; [S "bt"; S ""; S "bluetooth"];
                       [S "gps"; S "g"; S "gnss"; S "EPSG:4326"]; [S "acc"; S ""; S "accelerometer"];
                       [S "gyr"; S ""; S "gyroscope"]; [S "mag"; S ""; S "magnetic"]]
-  | FRigs => Some [[S "rig"; S "cam0"; Fz 1; Fz 0; Fz 0; Fz 0; CNone; CNone; CNone]]
+  | FRigs => Some [[S "car"; S "rig"; Fz 1; Fz 0; Fz 0; Fz 0; Fz 0; Fz 0; Fz 2];      (* parent rig first *)
+                   [S "rig"; S "cam0"; Fz 1; Fz 0; Fz 0; Fz 0; CNone; CNone; CNone]]
   | FTraj => Some [[CInt 5; S "rig"; CNone; CNone; CNone; CNone; Fz 1; Fz 2; Fz 3];
                    [CInt (-3); S "cam0"; Fz 1; Fz 0; Fz 0; Fz 0; Fz (-7); Fz 8; Fz 9]]
   | FRec RCamera => Some [[CInt 5; S "cam0"; S "a b/img 1.jpg"]; [CInt 1; S "cam0"; S "img0.jpg"]]
@@ -135,7 +146,8 @@ Example C01_example : fops_ok toy /\ wf toy ex_data = true /\
   loaded_p3d (load toy (save toy ex_data)) = Some (3%nat, [[Fz 1; Fz 2; Fz 3]]) /\
   loaded_tab (load toy (save toy ex_data)) FTraj =
     Some (Some [[CInt (-3); S "cam0"; Fz 1; Fz 0; Fz 0; Fz 0; Fz (-7); Fz 8; Fz 9];
-                [CInt 5; S "rig"; CNone; CNone; CNone; CNone; Fz 1; Fz 2; Fz 3]]).
+                [CInt 5; S "rig"; CNone; CNone; CNone; CNone; Fz 1; Fz 2; Fz 3]]) /\
+  loaded_tab (load toy (save toy ex_data)) FRigs = Some (ex_tabs FRigs).
 Proof. split; [exact toy_ok|]. repeat split; vm_compute; reflexivity. Qed.
 
 (* --- the behaviour before the repairs is refuted (fixes/C01-roundtrip-empty-parts.patch):
